@@ -92,6 +92,11 @@ func (g *gen) block(region string) Block {
 		// partial application would be visible in the next root
 		b := Block{Kind: "malformed"}
 		n := 1 + g.rng.Intn(3)
+		if g.rng.Intn(6) == 0 {
+			// a large block whose malformed transaction comes late (any internal chunking of the write batch
+			// would have applied the earlier chunks already): sizes around powers of two and beyond
+			n = []int{63, 64, 127, 128, 255, 256, 257, 300, 511, 512, 513, 700, 1023, 1025}[g.rng.Intn(14)]
+		}
 		for i := 0; i < n; i++ {
 			b.Txs = append(b.Txs, ordinaryKeys[g.rng.Intn(len(ordinaryKeys))]+"="+g.fresh())
 		}
@@ -114,6 +119,9 @@ func (g *gen) block(region string) Block {
 	default:
 		b := Block{Kind: "ok"}
 		n := 1 + g.rng.Intn(5)
+		if g.rng.Intn(25) == 0 {
+			n = 200 + g.rng.Intn(900) // a large well-formed block
+		}
 		for i := 0; i < n; i++ {
 			b.Txs = append(b.Txs, g.okTx())
 		}
